@@ -24,9 +24,18 @@ def installed_closures(prog):
             # the boxed closure: Box::new(closure) possibly cloned
             seen, calls, _ = data_deps(b, s.node["args"][1])
             n0 = len(out)
-            for x in b.sites():
+            cands = [x for x in b.sites() if x.si is not None and x.node["k"] == "assign" and x.node["rv"]["k"] == "aggregate" and x.node["rv"]["agg"].get("kind") == "closure" and x.node["dst"]["l"] in seen]
+            # a closure captured by the installed one (a shared `forbid(..)` both callbacks call) is not itself installed
+            inner = set()
+            for x in cands:
+                for opx in x.node["rv"]["ops"]:
+                    sx, _, _ = data_deps(b, opx)
+                    inner |= {y.node["dst"]["l"] for y in cands if y is not x and y.node["dst"]["l"] in sx}
+            for x in cands:
                 nd = x.node
-                if x.si is not None and nd["k"] == "assign" and nd["rv"]["k"] == "aggregate" and nd["rv"]["agg"].get("kind") == "closure" and nd["dst"]["l"] in seen:
+                if nd["dst"]["l"] in inner:
+                    continue
+                if True:
                     cb = prog.lib(nd["rv"]["agg"]["path"])
                     if cb is not None:
                         out.append((m.group(1), cb, b, s))
@@ -150,6 +159,16 @@ def rule_blocking(ctx):
             if deleg:
                 r.ok(anchor, "NOT decided: the %s function delegates to %s, which adds the clause" % (kind, deleg[0].path.rsplit("::", 1)[-1]), cb.loc())
                 continue
+            # ... or to a closure it captured (one `forbid(..)` shared by the installed callbacks)
+            shared = []
+            for x in cb.calls():
+                if callee_matches(callee_of(x), r"ops::function::(Fn::call|FnMut::call_mut|FnOnce::call_once)$") and x.node["args"]:
+                    if any(o.kind == "upvar" for o in origins(cb, x.node["args"][0], transparent=("core::ops::deref::Deref::deref",))):
+                        shared.append(x)
+            sib = [y for y in prog.lib_bodies() if y.kind == "closure" and y is not cb and prog.enclosing_fn(y) is prog.enclosing_fn(cb) and any(callee_matches(callee_of(z), r"sat_solver::SatSolver::add_clause$") for z in y.calls())]
+            if shared and sib:
+                r.ok(anchor, "NOT decided: the %s function calls a closure it captured (%s adds a clause), which is not followed" % (kind, sib[0].path.rsplit("::", 1)[-1]), cb.loc())
+                continue
         if not r.check(len(adds) == 1 and cb.postdominates(adds[0], (0, -1)), anchor, "no-blocking-clause", "adds exactly one clause on every path", "the %s function does not add a blocking clause on every path: the same set can be found again" % kind, cb.loc()):
             continue
         a = adds[0]
@@ -243,6 +262,13 @@ def rule_blocking(ctx):
             if callee_matches(callee_of(s), r"sat_solver::SatSolver::solve_under_assumptions$"):
                 n2 += 1
                 lits = tags.literals_of(prog, b, s.node["args"][1], tags_list_params(b))
+                # assumptions handed in by the caller (`search_under_assumptions(solver, same_range_assumptions(..), ..)`): what the callers pass
+                for l in list(lits):
+                    mm = re.match(r"^param#(\d+)$", str(l.note or "")) if l.role == "PARAM" else None
+                    if mm and str(b.vis or "").startswith("in:"):
+                        for cs in prog.callers_of(b):
+                            if int(mm.group(1)) - 1 < len(cs.node["args"]):
+                                lits = lits + tags.literals_of(prog, cs.body, cs.node["args"][int(mm.group(1)) - 1], tags_list_params(cs.body))
                 r.check(any(l.role == "SEL" and l.pos and ".selector" in str(l.note) for l in lits), b.id + "|same-range", "assumptions:%s" % lits, "the same-range search assumes the computer's selector positively", "the same-range search does not switch the blocking clauses off (positive selector missing)", s.loc())
     r.floor(n2, 1, "same-range searches")
     # polarity of the two halves of the split in the same-range search: members as they are, complement negated
@@ -850,6 +876,9 @@ def rule_local_selector_retired(ctx):
                     if len(cl) > 1 and any(x.pos is l.pos and _selector_identity(prog, b, x) == ident for x in cl):
                         r.violation("%s|solve#%d" % (b.id, k), "selector-satisfies-its-clause", "the clause stating the query carries the selector %s and the SAT call assumes it %s: the assumption satisfies the clause, the call asks nothing of the listed arguments" % ("positively" if l.pos else "negated", "positively" if l.pos else "negated"), a.loc())
             local = [(l, _selector_identity(prog, b, l)) for l in lits if l.pos and _selector_identity(prog, b, l) is not None]
+            # the literals of a vector are collected over the whole function: a selector created where this call cannot be reached from
+            # (after an early `return solver.solve_under_assumptions(..)`) is not among this call's assumptions
+            local = [(l, i) for l, i in local if not (i[0] == "site" and i[1] == b.id and not b.reaches(i[2], s.bb) and i[2] != s.bb)]
             if not local:
                 continue
             n += 1
